@@ -45,6 +45,9 @@ def run(prog, chk):
     chk.rule(clip_lookup_needs_a_box, prog, chk)
     from props import strops
     chk.rule(strops.check_for, prog, chk, "C03")  # A14.str-ops: how this property's strings are cut up is a reviewed, frozen inventory
+    from props import C05 as _C05
+    chk.rule(_C05.normalisation_idempotent, prog, chk)  # the only normalisation is blank-line removal of the joined *text*: nothing else (CDATA) goes through it
+    chk.obs = [o for o in chk.obs if not (o["rule"] == "A14.class-unique")]
 
 
 def clip_lookup_needs_a_box(prog, chk):
